@@ -130,7 +130,7 @@ def eval_bool(model, c):
 
 
 class Interp:
-    def __init__(self, prog, ctx=None, merge=False, unwind=64, feas=True, map_orders=None, merge_ints=None):
+    def __init__(self, prog, ctx=None, merge=False, unwind=64, feas=True, map_orders=None, merge_ints=None, backedge_check=True):
         self.prog = prog
         self.ctx = ctx or Ctx()
         self.merge = merge          # merge states that meet at the same scheduling key
@@ -149,6 +149,7 @@ class Interp:
         self.trace = False
         self.lenient = False
         self.merge_ints = merge if merge_ints is None else merge_ints
+        self.backedge_check = backedge_check
         from . import models as _m
         _m.install(self)
 
@@ -537,9 +538,13 @@ class Interp:
     def merge_domains(self, s1, s2):
         """s1 absorbs s2 (guards are or-ed by the caller): domains become unions, every variable of the diverging
         conjuncts is handed to the solver from now on"""
+        if not self.feas:
+            return
         n = self._common(s1.guard, s2.guard)
         mv = set(s1.mvars) | set(s2.mvars)
         for c in s1.guard[n:] + s2.guard[n:]:
+            if not isinstance(c, z3.ExprRef):
+                continue
             for v in domains.free_vars(c):
                 if v is not None:
                     mv.add(v)
@@ -1180,7 +1185,7 @@ class Interp:
                         c = fr.iters.get(h, 0)
                         if to == h and frm in loops[h]:
                             c += 1
-                            if not self.feas and c > 1:
+                            if not self.feas and self.backedge_check and c > 1:
                                 # merged regime: the solver decides whether another iteration exists
                                 if self.ctx.check(fr.st.guard) is None:
                                     return
